@@ -355,11 +355,26 @@ def random_master_set(r):
     return axes, masters, sources, options, names
 
 
-def check_random(chk, B, k):
+def edge_to_edge_sets():
+    """Masters whose artwork reaches all four edges of the viewBox in one master and is inset in another, with the
+    DEFAULT metrics and quantisation (the quantised clip box then lies strictly outside the viewBox on every side)."""
+    def svg(lo, hi):
+        return (f'<svg xmlns="http://www.w3.org/2000/svg" viewBox="0 0 100 100"><path d="M{lo},{lo} L{hi},{lo} L{hi},{hi} L{lo},{hi} Z" fill="#1E88E5"/>'
+                f'<path d="M40,45 L60,45 L50,60 Z" fill="#FDD835"/></svg>\n')
+    out = []
+    for default in (300, 700):
+        axes = [("wght", "Weight", default)]
+        masters = [("thin", "Thin", {"wght": 300}), ("bold", "Bold", {"wght": 700})]
+        sources = {"thin": {"e200.svg": svg(30, 70)}, "bold": {"e200.svg": svg(0, 100)}}
+        out.append((axes, masters, sources, {"color_format": '"glyf_colr_1"', "keep_glyph_names": "true", "reuse_tolerance": -1}, ["e200"]))
+    return out
+
+
+def check_random(chk, B, k, given=None):
     r = common.rng("C18", "random", k)
-    axes, masters, sources, options, names = random_master_set(r)
+    axes, masters, sources, options, names = given if given is not None else random_master_set(r)
     r = common.rng("C18", "random-eval", k)
-    ctx = f"random {k}: "
+    ctx = f"random {k}: " if given is None else f"edge-to-edge {k}: "
     rp = {"axes": axes, "masters": masters, "options": options, "sources": sources}
     rc, log, data = B.vf(axes, masters, sources, options)
     if rc != 0 or data is None:
@@ -374,7 +389,7 @@ def check_random(chk, B, k):
             raise MachineryError(f"static build of a random master failed: {slog[-600:]}")
         st = common_font(sdata)
         inst, _ = varfont.instantiate(data, m[2], rounded=True)
-        q = options.get("clipbox_quantization") or round(0.02 * options["upem"])
+        q = options.get("clipbox_quantization") or round(0.02 * options.get("upem", 1024))
         for p in same_as_static(inst, st, names, ctx + f"at {m[2]}: ", curves=True, q=q)[:3]:
             chk.violation(p, dict(rp, master=m[0]))
     # containment along every axis
@@ -462,6 +477,8 @@ def run(chk):
             outcomes[o] = outcomes.get(o, 0) + 1
         for k in range(n_random):
             check_random(chk, B, k)
+        for k, given in enumerate(edge_to_edge_sets()):
+            check_random(chk, B, 1000 + k, given=given)
     chk.notes["scenario_outcomes"] = outcomes
     chk.notes["model_numbers_agree"] = f"{chk.model_agree} of {outcomes.get('font', 0)} built scenarios agree with the model at every sampled location (|diff| <= 1 unit)"
     chk.notes["random_incompatible_or_failed"] = chk.incompatible
